@@ -641,6 +641,10 @@ pub fn install_panic_hook() {
     }));
 }
 
+pub fn last_panic() -> String {
+    PANIC_MSG.with(|p| p.borrow().clone())
+}
+
 pub(crate) fn guarded<T>(f: impl FnOnce() -> T) -> Result<T, String> {
     match catch_unwind(AssertUnwindSafe(f)) {
         Ok(v) => Ok(v),
